@@ -2,6 +2,7 @@ SPECIFICATION Spec
 CONSTANTS
   MaxBytes = 3
   Cuts = {"transit"}
+  AcceptLeavesDeadline = FALSE
   MaxNotices = 1
   NoticeEndsStream = TRUE
   OriginErrorFatal = TRUE
@@ -9,6 +10,7 @@ INVARIANTS
   Prefix
   EOFOnlyAfterAll
   NoSpontaneousClose
+  NoReadErrorWhileUp
   NoAbort
 PROPERTIES
   Complete
